@@ -94,21 +94,23 @@ def model(ctx, prop):
     """Exhaustive TLC runs of the writer model against the property layer."""
     if ctx.tier == "quick":
         ctx.tlc_model("WriterMC.tla", "Writer_quick.cfg")
+        ctx.tlc_model("WriterMC.tla", "Writer_asm_quick.cfg")      # chunks assembled by the caller, AddSchema / AddChannel
     else:
+        ctx.tlc_model("WriterMC.tla", "Writer_asm.cfg", timeout=3400)
         ctx.tlc_model("WriterMC.tla", "Writer_thorough.cfg", timeout=3400)
         ctx.tlc_model("WriterMC.tla", "Writer_flags.cfg")
 
 
-def simulate(ctx, n, seed):
+def simulate(ctx, n, seed, cfg="Writer_sim.cfg"):
     """spec -> code: TLC -simulate behaviours of WriterMC, exported as JSON."""
     import re
-    out, rc, wall = ctx.tlc("WriterMC.tla", "Writer_sim.cfg", workers=1, extra=["-simulate", "num=%d" % n, "-depth", "30", "-seed", str(seed)], timeout=900)
+    out, rc, wall = ctx.tlc("WriterMC.tla", cfg, workers=1, extra=["-simulate", "num=%d" % n, "-depth", "30", "-seed", str(seed)], timeout=900)
     if "Error:" in out and "Invariant" in out:
         raise MachineryError("WriterMC simulation violated a model invariant:\n" + out[-3000:])
     behs = re.findall(r'<<"BEH", "(.*)">>', out)
     if not behs:
         raise MachineryError("simulation exported no behaviours:\n" + out[-2000:])
-    p = os.path.join(ctx.tmp, "beh-%d.ndjson" % seed)
+    p = os.path.join(ctx.tmp, "beh-%s-%d.ndjson" % (cfg, seed))
     seen = set()
     with open(p, "w") as f:
         for b in behs:
@@ -129,7 +131,12 @@ def run(ctx, prop):
         drive_and_validate(ctx, prop, "replay", ["-mode", "abstract", "-seed", s, "-in", simulate(ctx, 300, s)])
         drive_and_validate(ctx, prop, "random", ["-mode", "random", "-seed", s, "-n", 400, "-size", 12])
         drive_and_validate(ctx, prop, "flags", ["-mode", "flags", "-seed", s, "-n", 1, "-size", 10])
+        drive_and_validate(ctx, prop, "asm", ["-mode", "asm", "-seed", s, "-n", 300, "-size", 10])
+        drive_and_validate(ctx, prop, "asmreplay", ["-mode", "abstract", "-seed", s + 7, "-in", simulate(ctx, 100, s + 7, "Writer_sim_asm.cfg")])
     else:
+        for k in range(4):
+            drive_and_validate(ctx, prop, "asm%d" % k, ["-mode", "asm", "-seed", s * 1000 + k, "-n", 1500, "-size", 8 + 6 * k])
+        drive_and_validate(ctx, prop, "asmreplay", ["-mode", "abstract", "-seed", s + 7, "-in", simulate(ctx, 1500, s + 7, "Writer_sim_asm.cfg")])
         for k in range(4):
             drive_and_validate(ctx, prop, "replay%d" % k, ["-mode", "abstract", "-seed", s * 100 + k, "-in", simulate(ctx, 2000, s * 100 + k)])
         for k in range(8):
